@@ -33,7 +33,7 @@ fn setup(ctx: &mut Ctx) {
 }
 
 fn strata(t: Tier) -> Vec<Stratum> {
-    vec![st("generated-histories", scale(t, 16_000, 1_200_000, 4)), st("seed-files", scale(t, 160, 8_000, 0)), st("mutated-and-random", scale(t, 16_000, 1_200_000, 4))]
+    vec![st("generated-histories", scale(t, 640_000, 6_400_000, 4)), st("seed-files", scale(t, 6_400, 64_000, 0)), st("mutated-and-random", scale(t, 640_000, 6_400_000, 4))]
 }
 
 pub struct ApiTag<'a> {
@@ -87,7 +87,11 @@ pub fn name_queries(r: &RefFile<'_>, rng: &mut crate::rng::Rng, max: usize) -> V
                 if let Ok(s) = std::str::from_utf8(n) {
                     v.push(s.to_string());
                     if s.len() > 1 && rng.chance(1, 4) {
-                        v.push(s[..s.len() - 1].to_string());
+                        let mut cut = s.len() - 1;
+                        while !s.is_char_boundary(cut) {
+                            cut -= 1;
+                        }
+                        v.push(s[..cut].to_string());
                     }
                 }
             }
